@@ -2106,7 +2106,7 @@ func sysFaultRuns(c *fw.Case, site string, args []string, reset func(), verify f
 		}
 		if r.timeout {
 			c.Probe("procsim-timeout-case-dropped")
-			continue
+			return true
 		}
 		if r.killedAt == "" || r.signaled {
 			continue // another interleaving of the threads ended before its k-th call
